@@ -68,3 +68,21 @@ V('C19-os-remove', 'C19', D, "            filesystem.invalidate_cache()\n       
   "            filesystem.invalidate_cache()\n            if filesystem.exists(file_path):\n                import shutil\n                shutil.rmtree(file_path)", rule='C19.e')
 V('C19-read-without-fs', 'C19', D, "            return read_parquet(\n                parts_tmp_path,\n                filesystem=filesystem,", "            return read_parquet(\n                parts_tmp_path,", rule='C19.e')
 V('C19-silent-gate-eq-form', 'C19', D, "            if subpart_paths_stripped != ls_res:\n", "            if ls_res != subpart_paths_stripped:\n", expect='silent')
+
+# ------------------------------------------------------------------------------------------------ C12
+V('C12-drop-astype-int', 'C12', PQ, "                bounds_df = (bounds_df\n                             .set_index(bounds_df.index.astype('int'))\n                             .sort_index()", "                bounds_df = (bounds_df\n                             .sort_index()", rule='C12.b')
+V('C12-sort-pieces-by-path', ['C12'], PQ, "key=lambda piece: natural_sort_key(piece.path))", "key=lambda piece: piece.path)", rule='C12.c')
+V('C12-filter-only-active', 'C12', PQ, "        for col in list(partition_bounds):\n            partition_bounds[col] = partition_bounds[col][inds]\n            partition_bounds[col].reset_index(drop=True, inplace=True)\n            partition_bounds[col].index.name = \"partition\"",
+  "        for col in [geometry]:\n            partition_bounds[col] = partition_bounds[col][inds]\n            partition_bounds[col].reset_index(drop=True, inplace=True)\n            partition_bounds[col].index.name = \"partition\"", rule='C12.e')
+V('C12-filter-strict', 'C12', PQ, "            (partitions_df.x1 < x0) |", "            (partitions_df.x1 <= x0) |", rule='C12.d')
+V('C12-filter-wrong-corner', 'C12', PQ, "            (partitions_df.y0 > y1)\n", "            (partitions_df.y0 > y0)\n", rule='C12.d')
+V('C12-filter-axis-mix', 'C12', PQ, "            (partitions_df.y1 < y0) |", "            (partitions_df.y1 < x0) |", rule='C12.d')
+V('C12-no-reorient', 'C12', PQ, "        if y0 > y1:\n            y0, y1 = y1, y0\n", "", rule='C12.d')
+V('C12-filter-and', 'C12', PQ, "            (partitions_df.x1 < x0) |\n            (partitions_df.y1 < y0) |", "            (partitions_df.x1 < x0) &\n            (partitions_df.y1 < y0) |", rule='C12.d')
+V('C12-columns-swapped', 'C12', D, "                    [s.total_bounds], columns=['x0', 'y0', 'x1', 'y1']", "                    [s.total_bounds], columns=['x0', 'x1', 'y0', 'y1']", rule='C12.a')
+V('C12-key-typo', 'C12', D, "            all_metadata[b'spatialpandas'] = b_spatial_metadata", "            all_metadata[b'spatial_pandas'] = b_spatial_metadata", rule='C12.a')
+V('C12-getitem-propagates-on-rows', 'C12', D, "        elif isinstance(key, (np.ndarray, list)):", "        elif isinstance(result, DaskGeoDataFrame):", rule='C12.g')
+V('C12-filter-first-geometry', 'C12', PQ, "    geometry = meta.geometry.name\n", "    geometry = [c for c in meta.columns if isinstance(meta[c].dtype, GeometryDtype)][0]\n", rule='C12.f')
+V('C12-silent-demorgan', 'C12', PQ, "        inds = ~(\n            (partitions_df.x1 < x0) |\n            (partitions_df.y1 < y0) |\n            (partitions_df.x0 > x1) |\n            (partitions_df.y0 > y1)\n        )",
+  "        inds = (\n            (partitions_df.x1 >= x0) &\n            (partitions_df.y1 >= y0) &\n            (partitions_df.x0 <= x1) &\n            (partitions_df.y0 <= y1)\n        )", expect='silent')
+V('C12-silent-swap-operands', 'C12', PQ, "            (partitions_df.x1 < x0) |", "            (x0 > partitions_df.x1) |", expect='silent')
